@@ -116,10 +116,20 @@ func c12FullStack(mode int) func() {
 		// UDP tunnel: the socket write of one acknowledgement may fail (a transient error); the gateway
 		// then repeats that telegram, which must surface exactly once all the same
 		failAt := -1
+		reconnAt := -1 // tunnels: the gateway ends the connection before telegram reconnAt; numbering restarts
 		if mode == 0 {
 			failAt = []int{-1, 2, 13}[mc.Choose(3, mc.Free)]
 		}
+		if mode != 2 {
+			reconnAt = []int{-1, 1, 7}[mc.Choose(3, mc.Free)]
+		}
+		base := 0
 		for i, s := range c12FullShapes() {
+			if i == reconnAt {
+				ep.Inject(pack(&knxnet.DiscReq{Channel: 7, Control: knxnet.HostInfo{Protocol: knxnet.UDP4}}), nil)
+				mc.Sleep(20 * ms)
+				base = i
+			}
 			f := c12FullFrame(i, s)
 			mc.Log(Injected{i, hex.EncodeToString(f.Data.(*cemi.AppData).Data)})
 			if mode == 2 {
@@ -128,11 +138,11 @@ func c12FullStack(mode int) func() {
 				if i == failAt {
 					ep.WriteErr = errors.New("injected write failure")
 				}
-				ep.Inject(pack(&knxnet.TunnelReq{Channel: 7, SeqNumber: uint8(i), Payload: f}), nil)
+				ep.Inject(pack(&knxnet.TunnelReq{Channel: 7, SeqNumber: uint8(i - base), Payload: f}), nil)
 				if i == failAt {
 					mc.Sleep(10 * ms)
 					ep.WriteErr = nil
-					ep.Inject(pack(&knxnet.TunnelReq{Channel: 7, SeqNumber: uint8(i), Payload: f}), nil)
+					ep.Inject(pack(&knxnet.TunnelReq{Channel: 7, SeqNumber: uint8(i - base), Payload: f}), nil)
 				}
 			}
 			mc.Sleep(10 * ms)
